@@ -48,6 +48,7 @@ Inductive parse_msg :=
 
 Record pst := {
   raw : list rtok;                  (* raw tokens not yet read by the preprocessor *)
+  src : text;                       (* source text from the stream cursor on (what `text[cursor..]` is) *)
   pp : pstate;
   cursor : N;                       (* token_stream.cursor() *)
   cur : TokenKind; cur_lo : N; cur_text : text;   (* current, current_range = cur_lo .. cur_lo + bytes cur_text *)
@@ -60,28 +61,38 @@ Definition cur_hi (s : pst) : N := cur_lo s + bytes (cur_text s).
 
 Definition raw_text (r : list rtok) : text := List.concat (map rtext r).
 
+(** `&text[start..end]` relative to the cursor: the characters of [t] that cover the next [n] bytes
+    (and the rest).  The token text handed to the builder is this slice of the SOURCE, as in
+    ParserBase::save (`self.token_stream.text(self.current_range)`), not the lexemes of the lexer:
+    that both agree is part of the tiling invariant (proofs/ParserTile.v). *)
+Fixpoint take_bytes (n : N) (t : text) : text * text :=
+  match t with
+  | [] => ([], [])
+  | c :: r => if n =? 0 then ([], t) else let '(a, b) := take_bytes (n - utf8_len c) r in (c :: a, b)
+  end.
+
 (** ParserBase::lex *)
 Definition p_lex (s : pst) : pst :=
   let '(k, len, pp', raw') := prep_next (pp s) (raw s) in
-  let consumed := firstn (List.length (raw s) - List.length raw') (raw s) in
-  {| raw := raw'; pp := pp'; cursor := cursor s + len;
-     cur := k; cur_lo := cursor s; cur_text := raw_text consumed;
+  let '(tx, src') := take_bytes len (src s) in
+  {| raw := raw'; src := src'; pp := pp'; cursor := cursor s + len;
+     cur := k; cur_lo := cursor s; cur_text := tx;
      bld := bld s; errs := errs s; after_err := after_err s; nlex := nlex s + 1; nstart := nstart s |}.
 
 (** ParserBase::new *)
 Definition p_new (txt : text) : pst :=
-  p_lex {| raw := raw_lex txt; pp := pinit; cursor := 0; cur := T_Eof; cur_lo := 0; cur_text := [];
+  p_lex {| raw := raw_lex txt; src := txt; pp := pinit; cursor := 0; cur := T_Eof; cur_lo := 0; cur_text := [];
            bld := builder_init; errs := []; after_err := false; nlex := 0; nstart := 0 |}.
 
 Definition p_error (s : pst) (m : parse_msg) : pst :=
-  {| raw := raw s; pp := pp s; cursor := cursor s; cur := cur s; cur_lo := cur_lo s; cur_text := cur_text s;
+  {| raw := raw s; src := src s; pp := pp s; cursor := cursor s; cur := cur s; cur_lo := cur_lo s; cur_text := cur_text s;
      bld := bld s; errs := (cur_lo s, cur_hi s, m) :: errs s; after_err := true; nlex := nlex s; nstart := nstart s |}.
 
 Definition with_bld (s : pst) (b : builder) : pst :=
-  {| raw := raw s; pp := pp s; cursor := cursor s; cur := cur s; cur_lo := cur_lo s; cur_text := cur_text s;
+  {| raw := raw s; src := src s; pp := pp s; cursor := cursor s; cur := cur s; cur_lo := cur_lo s; cur_text := cur_text s;
      bld := b; errs := errs s; after_err := after_err s; nlex := nlex s; nstart := nstart s |}.
 Definition with_pp_after (s : pst) (p : pstate) (a : bool) : pst :=
-  {| raw := raw s; pp := p; cursor := cursor s; cur := cur s; cur_lo := cur_lo s; cur_text := cur_text s;
+  {| raw := raw s; src := src s; pp := p; cursor := cursor s; cur := cur s; cur_lo := cur_lo s; cur_text := cur_text s;
      bld := bld s; errs := errs s; after_err := a; nlex := nlex s; nstart := nstart s |}.
 
 (** ParserBase::save; None = `expect("error token without message")` failed *)
@@ -94,16 +105,17 @@ Definition p_save (s : pst) : option pst :=
     end
   else Some (with_pp_after s1 (pp s1) false).
 
-(** ParserBase::skip: structural on fuel; the callers pass [S (length raw)] (every trivia token read
-    consumes at least one raw token) *)
-Fixpoint p_skip (fuel : nat) (s : pst) : option pst :=
+(** ParserBase::skip: `while self.current.is_trivia() { save; lex }`.  Structural on a fuel LIST; the
+    callers pass [eof_tok :: raw s], i.e. 1 + the number of unread raw tokens (every trivia token
+    read consumes at least one raw token: proofs/ParserTile.v shows the fuel never runs out). *)
+Fixpoint p_skip (fuel : list rtok) (s : pst) : option pst :=
   match fuel with
-  | O => if is_trivia (cur s) then None else Some s
-  | S n => if is_trivia (cur s) then
-             match p_save s with Some s1 => p_skip n (p_lex s1) | None => None end
-           else Some s
+  | [] => if is_trivia (cur s) then None else Some s
+  | _ :: n => if is_trivia (cur s) then
+                match p_save s with Some s1 => p_skip n (p_lex s1) | None => None end
+              else Some s
   end.
-Definition p_skip_all (s : pst) : option pst := p_skip (S (List.length (raw s))) s.
+Definition p_skip_all (s : pst) : option pst := p_skip (eof_tok :: raw s) s.
 
 (** ParserBase::eat *)
 Definition p_eat (s : pst) : option pst :=
@@ -118,7 +130,7 @@ Definition p_eof (s : pst) : bool := p_at s T_Eof.
 
 Definition p_start_node (s : pst) (k : SyntaxKind) : pst :=
   let s1 := with_bld s (b_start_node (bld s) k) in
-  {| raw := raw s1; pp := pp s1; cursor := cursor s1; cur := cur s1; cur_lo := cur_lo s1; cur_text := cur_text s1;
+  {| raw := raw s1; src := src s1; pp := pp s1; cursor := cursor s1; cur := cur s1; cur_lo := cur_lo s1; cur_text := cur_text s1;
      bld := bld s1; errs := errs s1; after_err := after_err s1; nlex := nlex s1; nstart := nstart s1 + 1 |}.
 Definition p_start_node_at (s : pst) (cp : nat) (k : SyntaxKind) : option pst :=
   match b_start_node_at (bld s) cp k with Some b => Some (with_bld s b) | None => None end.
